@@ -108,7 +108,7 @@ func (f *vFixedReader) Read(p []byte) (int, error) {
 // hyphen/newline sequences sprinkled in so that pads/fragmentations move them
 // across the 1020/1024-byte buffer edges.
 func vC08Inputs(r *rand.Rand, docs []vDoc, n int, maxLen int) [][]byte {
-	spice := []string{"—", "‐", "‒", "“", "”", "é", "漢字", "😀", "©", "§", "·", " ", " ", "-\n", "x-\ny", "\xff", "\xe2\x80", "\xf0\x9f\x98", "&amp;", "&#169;"}
+	spice := []string{"—", "‐", "‒", "“", "”", "é", "漢字", "😀", "©", "§", "·", " ", " ", "-\n", "x-\ny", "-\r\n", "x-\r\ny", "\r\n", "\xff", "\xe2\x80", "\xf0\x9f\x98", "&amp;", "&#169;"}
 	var out [][]byte
 	for len(out) < n {
 		d := docs[r.Intn(len(docs))]
@@ -155,13 +155,22 @@ func vC08Inputs(r *rand.Rand, docs []vDoc, n int, maxLen int) [][]byte {
 			sb.WriteString(vOOVBlock(r, 1))
 		}
 		col := 0
+		// one input in four has CR LF line ends, with words continued over them
+		crlf := len(out)%4 == 1
 		for _, w := range words {
+			if crlf && len(w) > 4 && w[0] < 128 && w[1] < 128 && w[2] < 128 && r.Intn(10) == 0 {
+				w = w[:2] + "-\r\n" + w[2:]
+				col = 0
+			}
 			sb.WriteString(w)
 			switch {
 			case r.Intn(25) == 0:
 				sb.WriteString(spice[r.Intn(len(spice))])
 				sb.WriteByte(' ')
 			case col > 8+r.Intn(8):
+				if crlf {
+					sb.WriteByte('\r')
+				}
 				sb.WriteByte('\n')
 				col = 0
 			default:
